@@ -30,9 +30,12 @@ C10_VolSum(g, o)  == /\ \A k \in 1..Len(o.volume) : ~IsNaR(o.volume[k])
                      /\ RSumSeq(o.volume) = DomainVolume(g)
 C10_Labels(g, o)  == \A p \in DOMAIN o.labels : \A l \in AllLabels :
                         o.labels[p][l] = LabelAxis(g.cls, l)
+\* cellvolume is a computed, read-only quantity: what a caller does to the array it was handed changes neither a
+\* later answer nor the geometry of the mesh
+C10_Stable(g, o)  == o.volume_again = o.volume /\ o.cellsize_again = o.cellsize
 
 C10_Clauses == {"C10_Dims", "C10_Faces", "C10_Centres", "C10_Sizes", "C10_Volume",
-                "C10_VolPositive", "C10_VolSum", "C10_Labels"}
+                "C10_VolPositive", "C10_VolSum", "C10_Labels", "C10_Stable"}
 C10_Holds(name, g, o) ==
   CASE name = "C10_Dims" -> C10_Dims(g, o)
     [] name = "C10_Faces" -> C10_Faces(g, o)
@@ -42,6 +45,7 @@ C10_Holds(name, g, o) ==
     [] name = "C10_VolPositive" -> C10_VolPositive(g, o)
     [] name = "C10_VolSum" -> C10_VolSum(g, o)
     [] name = "C10_Labels" -> C10_Labels(g, o)
+    [] name = "C10_Stable" -> C10_Stable(g, o)
 C10_Failing(g, o) == {n \in C10_Clauses : ~C10_Holds(n, g, o)}
 
 -----------------------------------------------------------------------------
@@ -345,5 +349,9 @@ RefMesh(g) ==
    volume      |-> LET n == Cardinality(Interior(g))
                    IN  [k \in 1..n |-> VolGeom(g, CHOOSE c \in Interior(g) : IntIdx(g, c) = k)],
    labels      |-> [p \in {"cellsize", "cellcenters", "facecenters"} |->
-                       [l \in AllLabels |-> LabelAxis(g.cls, l)]]]
+                       [l \in AllLabels |-> LabelAxis(g.cls, l)]],
+   \* the reference mesh is a value: asking again gives the same answer
+   volume_again |-> LET n == Cardinality(Interior(g))
+                    IN  [k \in 1..n |-> VolGeom(g, CHOOSE c \in Interior(g) : IntIdx(g, c) = k)],
+   cellsize_again |-> [a \in 1..Dim(g.cls) |-> SizesSeq(g, a)]]
 =============================================================================
